@@ -257,7 +257,7 @@ mod imp {
 
     /// statements calling the character natives on `sv` in the fixed order of Model/Utf8Obs.v nat_obs;
     /// style 0 = method syntax, 1 = qualified `string.f(sv, ..)`
-    fn nat_program(n: usize, blen: usize, pad_lit: &str, s1: char, style: u64) -> String {
+    fn nat_program(n: usize, blen: usize, pad_lit: &str, s1: char, style: u64, needles: &[String]) -> String {
         let call = |f: &str, args: &str| if style == 0 { format!("sv.{}({})", f, args) }
                    else if args.is_empty() { format!("string.{}(sv)", f) } else { format!("string.{}(sv, {})", f, args) };
         let n = n as i64;
@@ -277,6 +277,7 @@ mod imp {
         exprs.push(call("concat", "pd"));
         let bl = blen as i64;
         for i in [-1, 0, bl - 1, bl] { exprs.push(call("byte_at", &i.to_string())); }
+        for nd in needles { exprs.push(call("find", &format!("\"{}\"", nd))); }
         let mut o = format!("let pd = \"{}\"\n", pad_lit);
         for e in exprs { o.push_str(&format!("print({}); print(\"{}\")\n", e, s1)); }
         o
@@ -288,10 +289,10 @@ mod imp {
         if r.class != "ok" { return vec![-9, class_code(&r.class)]; }
         let Some(body) = r.output.strip_suffix(s1) else { return vec![-8, 1] };
         let fields: Vec<&str> = body.split(s1).collect();
-        if fields.len() < 4 { return vec![-8, 2]; }
+        if fields.len() < 8 { return vec![-8, 2]; }
         let mut o = Vec::new();
-        for f in &fields[..fields.len() - 4] { o.extend(bytes_of(f)); }
-        for f in &fields[fields.len() - 4..] { match f.parse::<i128>() { Ok(v) => o.push(v), Err(_) => return vec![-8, 3] } }
+        for f in &fields[..fields.len() - 8] { o.extend(bytes_of(f)); }
+        for f in &fields[fields.len() - 8..] { match f.parse::<i128>() { Ok(v) => o.push(v), Err(_) => return vec![-8, 3] } }
         o
     }
 
@@ -397,7 +398,10 @@ mod imp {
                     let (n1, _) = pick_seps(&both);
                     let style = rng.below(2);
                     let blen = to_string(cs).len();
-                    let nat_src = wrap(&cons, &nat_program(n, blen, &lit(&ps, &mut rng), n1, style), form, local);
+                    let mut zz = cs.clone(); zz.push(122);
+                    let needle_cs: [Vec<u32>; 4] = [cs.iter().skip(n / 2).take(1).cloned().collect(), cs[n.saturating_sub(2)..].to_vec(), vec![], zz];
+                    let needles: Vec<String> = needle_cs.iter().map(|x| lit(x, &mut rng)).collect();
+                    let nat_src = wrap(&cons, &nat_program(n, blen, &lit(&ps, &mut rng), n1, style, &needles), form, local);
                     println!("H\t{}\t{}\t{}", case_id, form, esc(&nat_src));
                     for &o in &opts {
                         let obs = run_nat(&nat_src, n1, o, budget);
